@@ -197,9 +197,9 @@ fn main() {
 			"b12.flip.invreq.rejected",
 			"b12.flip.invoice.rejected",
 			"b12.flip.static.rejected",
-			"b12.flip.invreq.err.InvalidSignature:InvalidSignature",
-			"b12.flip.invoice.err.InvalidSignature:InvalidSignature",
-			"b12.flip.static.err.InvalidSignature:InvalidSignature",
+			"b12.flip.invreq.err.InvalidSignature:IncorrectSignature",
+			"b12.flip.invoice.err.InvalidSignature:IncorrectSignature",
+			"b12.flip.static.err.InvalidSignature:IncorrectSignature",
 			"b12.flip.offer.parsed_identity",
 			"b12.verify.invreq.metadata.genuine_accepted",
 			"b12.verify.invreq.recipient_data.genuine_accepted",
@@ -222,6 +222,9 @@ fn main() {
 		];
 		for k in need {
 			if cx.stats.get(k) == 0 && !cx.capped {
+				for (k, v) in cx.stats.0.iter() {
+					eprintln!("  {} = {}", k, v);
+				}
 				cli::die(&format!("vacuity guard: outcome {} was never observed", k));
 			}
 		}
@@ -237,7 +240,7 @@ fn main() {
 				property: ID.to_string(),
 				oracle: v.oracle.to_string(),
 				identity: v.identity.clone(),
-				detail: v.detail.chars().take(4000).collect(),
+				detail: v.detail.replace('\x1f', " ").chars().take(3000).collect(),
 				replay: v.replay.clone(),
 			});
 		}
@@ -254,4 +257,41 @@ fn main() {
 		start.elapsed().as_secs_f64()
 	);
 	std::process::exit(findings::conclude(ID, &violations, &mut ev));
+}
+
+/// Names of the accessor fields (unit-separator separated `name=value` dumps) that differ.
+pub fn diff_fields(a: &str, b: &str) -> Vec<String> {
+	let fa: Vec<&str> = a.split('\x1f').collect();
+	let fb: Vec<&str> = b.split('\x1f').collect();
+	let mut out = Vec::new();
+	for i in 0..fa.len().max(fb.len()) {
+		let x = fa.get(i).copied().unwrap_or("");
+		let y = fb.get(i).copied().unwrap_or("");
+		if x != y {
+			out.push(x.split('=').next().unwrap_or("").to_string());
+		}
+	}
+	out
+}
+
+/// `fields=a+b; built … parsed …` – the prefix is what violation identities are made of.
+pub fn diff_detail(a: &str, b: &str) -> String {
+	let d = diff_fields(a, b);
+	let mut s = format!("fields={}; ", d.join("+"));
+	for (x, y) in a.split('\x1f').zip(b.split('\x1f')) {
+		if x != y {
+			s.push_str(&format!("built {} / parsed {}; ", x, y));
+		}
+	}
+	s
+}
+
+/// Identity for a round-trip violation: cause (differing fields) if known, else the minimal config.
+pub fn rt_identity(oracle: &str, fam: &str, detail: &str, minimal: &str) -> String {
+	if let Some(rest) = detail.strip_prefix("fields=") {
+		let f = rest.split(';').next().unwrap_or("");
+		format!("{}|{}|fields={}", oracle, fam, f)
+	} else {
+		format!("{}|{}|{}", oracle, fam, minimal)
+	}
 }
